@@ -33,7 +33,7 @@ STUB = ["SdSimulation worker threads run serially (the models are deterministic;
 ASSUMPTIONS = ["after a session passed step-level settings for an element to a scenario, that scenario's OWN results are not judged until it is explicitly re-parameterised for that element (the property does not say whether step settings outlive the session); all other scenarios and the base models stay under the oracle",
                "the fresh-model oracle shares the DSL core with the system (its correctness is C01, not claimed)"]
 FAULT_KINDS = []
-PROBES = ["observed_together_with_sibling", "sibling_on_another_grid", "hybrid_manager", "managers_share_base_object", "points_setting", "runspec_setting", "step_level_setting", "rest_run_setting", "session_left_open",
+PROBES = ["session_over_scenarios_on_different_grids", "observed_together_with_sibling", "sibling_on_another_grid", "hybrid_manager", "managers_share_base_object", "points_setting", "runspec_setting", "step_level_setting", "rest_run_setting", "session_left_open",
           "scenario_added_later", "session_with_foreign_operations", "step_settings_expire_with_the_session", "sparse_observation", "rest_run_over_two_scenarios", "point_edited_in_place", "session_over_two_managers", "scenario_registered_again", "run_over_two_managers", "name_known_to_one_manager_only"]
 EXHAUSTIVE = {"quick": False, "thorough": False}
 
@@ -59,9 +59,10 @@ def gen_settings(rng, template, base, allow_runspecs=True, allow_strings=False, 
         # start time and dt stay what the scenario has
         s["runspecs"] = {"stoptime": rng.choice([6.0, 8.0, 9.0])}
     elif allow_runspecs and rng.random() < 0.3:
-        dt = rng.choice([1.0, 0.5, 0.25])
-        start = base["start"] + rng.choice([0.0, 0.0, 1.0, 2.0])
-        n = rng.choice([3, 4, 6])
+        dt = rng.choice([1.0, 0.5, 0.25, 0.1, 0.2, 2.0])        # (decimal steps too: (0.3 - 0) / 0.1 is 2.9999999999999996 in floating point)
+        # (a start time need not be a multiple of dt: start 1 with dt 2, start 0.5 with dt 1 - the grid is start + k*dt)
+        start = base["start"] + rng.choice([0.0, 0.0, 1.0, 2.0, 0.5])
+        n = rng.choice([3, 4, 6, 7])
         # a partial override is relative to the base model's run spec, which only holds at registration;
         # later settings override all three so that the stop time stays on the grid
         which = rng.sample(["starttime", "stoptime", "dt"], rng.randint(1, 3)) if partial_runspecs else ["starttime", "stoptime", "dt"]
@@ -73,7 +74,7 @@ def gen_settings(rng, template, base, allow_runspecs=True, allow_strings=False, 
             rs["starttime"] = st
         if "dt" in which:
             rs["dt"] = d
-        rs["stoptime"] = st + d * n
+        rs["stoptime"] = round(st + d * n, 6)       # a decimal literal, as somebody would write it
         s["runspecs"] = rs
     return s
 
@@ -497,8 +498,14 @@ def run_history(w, case, res, log, prop, twin_factory=None):
                         # the run specs the scenario had when the session was begun (later changes do not move a running session)
                         g0 = w.session_grid.get(key, (sh["start"], sh["stop"], sh["dt"]))
                         own_grid = set(T.label(x) for x in T.grid(*g0))
+                        # a session over scenarios on DIFFERENT grids steps on a compromise clock (latest start, dt 1): a scenario
+                        # may then be asked at times that are not on its own grid - nothing is prescribed for those
+                        mixed = len({(g_[0], g_[2]) for g_ in w.session_grid.values()}) > 1
                         for el, tv in node.items():
                             for t, v in tv.items():
+                                if float(t) not in own_grid and mixed:
+                                    res.probe("session_over_scenarios_on_different_grids")
+                                    continue
                                 if float(t) not in own_grid:
                                     # a session steps on the grid of its scenarios (with the run specs its settings gave them)
                                     res.violate(prop + ".scenario-differs-from-fresh-model-grid-differs",
